@@ -11,10 +11,14 @@ case "$ID" in
   C15) T=c15_views; MAXLEN=600;;
   C16) T=c16_ascii; MAXLEN=300;;
   C18) T=c18_calls; MAXLEN=120;;
+  C07) T=c07_scan; MAXLEN=800;;
+  C13) T=c13_extract; MAXLEN=500;;
+  C17) T=c17_history; MAXLEN=700;;
   *) echo '{"target": null}' > "$OUT"; exit 0;;
 esac
 SEED="${VERIF_SEED:-20260926}"
 RUNS="${VERIF_FUZZ_RUNS:-300000}"
+case "$T" in c13_extract|c17_history) RUNS=$((RUNS / 3));; esac   # slower per execution (many container x k-mer-width checks per case)
 PROCS="${VERIF_FUZZ_PROCS:-8}"
 export CARGO_NET_OFFLINE=true
 cd "$ROOT/harness" || exit 2
